@@ -42,7 +42,9 @@ def main():
                 "design_ref": "DESIGN.md section 4, %s" % p,
             },
             "level_note": "; ".join(m.get("trusted_base", []) + m.get("assumptions", [])) or "rustc's MIR faithfully represents the source",
-            "technique": m.get("technique", "static analysis: custom MIR rules over the type-checked program (rustc_private driver)"),
+            "technique": m.get("technique", "static analysis: custom MIR rules over the type-checked program (rustc_private driver)") +
+                         "; crate-wide zero-count dataflow rules W1-W6 on the property's anchored files (cast, taint and adaptor dataflow over MIR)" +
+                         ("; size formulas decided by abstract interpretation over residues of the length (A13)" if p in ("C01", "C05", "C06", "C07", "C08", "C11", "C12", "C13", "C14", "C18", "C19") else ""),
         })
     man = {
         "version": 1,
